@@ -145,7 +145,9 @@ Print Assumptions C15_lockset_nonvacuous.
    Source: in every method of threadsafe_queue each push on the container is followed, before the next push or the end of
    the method, by a notification of the condition variable the consumers wait on, and no notification is conditional
    (the translator refuses a notify under if/for/while).  Variants without, with a shared, or with a preceding
-   notification are rejected (C15_notify_per_push_nonvacuous). *)
+   notification are rejected (C15_notify_per_push_nonvacuous); the last one is a purely syntactic restriction -- a
+   notification issued before the push but under the same lock would be harmless -- kept so that the accepted shape is
+   exactly "push, then notify". *)
 Theorem C15_notify_per_push : notify_per_push methods_threadsafe_queue = true /\ notifications_unconditional = true.
 Proof. exact notify_per_push_ok. Qed.
 Print Assumptions C15_notify_per_push.
